@@ -1,5 +1,5 @@
 (* C08 / C18 runner (AnimEncoder model).  Input, one case per line:
-     enc <px|al> <fixes: 3 chars 0/1 blend filler alph> W H loop kmin kmax lossless mixed quality simple n
+     enc <px|al|st> <fixes: 3 chars 0/1 blend filler alph> W H loop kmin kmax lossless mixed quality simple n
          { iw ih dur obg okey oa ob oc pixhex }*n
      qmd q | san kmin kmax | fcr W H hexprev hexcurr | snap x0 y0 x1 y1
      sim r g b a r g b a md | lpx fix r g b a r g b a
@@ -65,7 +65,7 @@ let () = iter_lines (fun line ->
           Printf.printf "I %s %s %s %s %d %s %s\n"
             (if out.M.out_still then "still" else "anim") (zs out.M.out_W) (zs out.M.out_H) (zs out.M.out_loop)
             (Stdlib.List.length recs) (String.concat ";" recs)
-            (String.concat "," (Stdlib.List.map (fun (c, _) -> show c) pb))))
+            (if mode = "st" then "" else String.concat "," (Stdlib.List.map (fun (c, _) -> show c) pb))))
   | ["qmd"; q] -> Printf.printf "I %s\n" (zs (M.quality_to_max_diff (z_of_string q)))
   | ["san"; kmin; kmax] ->
     let (a, c) = M.sanitize_k (z_of_string kmin) (z_of_string kmax) in
